@@ -1,10 +1,63 @@
 import CoxeterVerif.Driver.Proto
+import CoxeterVerif.Model.Mutable
 
 namespace OpsC03
+open Mut
 
-/-- driver ops of C03. `none` = unknown op. -/
+def rdTriple (c : Ctx) : Rd (Nat × Nat × Nat) := do
+  let a ← Rd.nat c; let b ← Rd.nat c; let d ← Rd.nat c; pure (a, b, d)
+
+def rdState {α} [Scalar α] [Codec α] (c : Ctx) : Rd (CPState α) := do
+  let verts ← Rd.list c (Rd.v3 c)
+  let simplices ← Rd.list c (rdTriple c)
+  let faceHead ← Rd.list c (rdTriple c)
+  let eqN ← Rd.list c (Rd.v3 c)
+  let eqD ← Rd.list c (Rd.sc c)
+  let seqN ← Rd.list c (Rd.v3 c)
+  let seqD ← Rd.list c (Rd.sc c)
+  let volume ← Rd.sc c
+  let area ← Rd.sc c
+  let centroid ← Rd.v3 c
+  pure ⟨verts, simplices, faceHead, eqN, eqD, seqN, seqD, volume, area, centroid⟩
+
+def outState {α} [Codec α] (s : CPState α) : String :=
+  let vs := " ".intercalate (s.verts.map Out.v3)
+  let en := " ".intercalate (s.eqN.map Out.v3)
+  let sn := " ".intercalate (s.seqN.map Out.v3)
+  s!"{vs} {en} {Out.scs s.eqD} {sn} {Out.scs s.seqD} {Out.sc s.volume} {Out.sc s.area} {Out.v3 s.centroid}"
+
+/-- driver ops of C03: `cpstate.run <state> <nops> (<opcode> args)*`
+    opcodes: 0 setVolume v | 1 setSurfaceArea v | 2 setRadius current v | 3 setCentroid c(3) -/
 def run (α : Type) [Scalar α] [Codec α] (op : String) (c : Ctx) : Option (Rd String) :=
   match op with
+  | "cpstate.run" => some do
+      let s0 : CPState α ← rdState c
+      let n ← Rd.nat c
+      let mut s := s0
+      let mut log : List String := []
+      for _ in [0:n] do
+        let code ← Rd.nat c
+        if code = 0 then
+          let v : α ← Rd.sc c
+          match s.setVolume v with
+          | .ok s' => s := s'; log := log ++ ["i0"]
+          | .error _ => log := log ++ ["i1"]
+        else if code = 1 then
+          let v : α ← Rd.sc c
+          match s.setSurfaceArea v with
+          | .ok s' => s := s'; log := log ++ ["i0"]
+          | .error _ => log := log ++ ["i1"]
+        else if code = 2 then
+          let cur : α ← Rd.sc c
+          let v : α ← Rd.sc c
+          match s.setRadius cur v with
+          | .ok s' => s := s'; log := log ++ ["i0"]
+          | .error _ => log := log ++ ["i1"]
+        else
+          let cc : V3 α ← Rd.v3 c
+          s := s.setCentroid cc
+          log := log ++ ["i0"]
+      pure (" ".intercalate log ++ " " ++ outState s)
   | _ => none
 
 end OpsC03
